@@ -6,6 +6,7 @@ import datetime
 import enum
 
 import attr
+import dateutil.tz
 import six
 
 from cryptodatahub.common.algorithm import Authentication, NamedGroup, Signature
@@ -406,6 +407,10 @@ class DnsRecordRrsig(ParsableBase):  # pylint: disable=too-many-instance-attribu
         metadata={'human_friendly': False}
     )
 
+    @staticmethod
+    def _timestamp_from_seconds(value):
+        return datetime.datetime.fromtimestamp(value, dateutil.tz.UTC)
+
     @classmethod
     def _parse(cls, parsable):
         if len(parsable) < cls.HEADER_SIZE:
@@ -420,8 +425,8 @@ class DnsRecordRrsig(ParsableBase):  # pylint: disable=too-many-instance-attribu
         parser.parse_parsable('algorithm', DnsSecAlgorithmFactory)
         parser.parse_numeric('labels', 1)
         parser.parse_numeric('original_ttl', 4)
-        parser.parse_timestamp('signature_expiration', item_size=4)
-        parser.parse_timestamp('signature_inception', item_size=4)
+        parser.parse_numeric('signature_expiration', 4, cls._timestamp_from_seconds)
+        parser.parse_numeric('signature_inception', 4, cls._timestamp_from_seconds)
         parser.parse_numeric('key_tag', 2)
         parser.parse_parsable('signers_name', DnsNameUncompressed)
         parser.parse_raw('signature', parser.unparsed_length)
